@@ -124,11 +124,12 @@ def _shadowed(par, n, name):
 
 
 def wall_clock(ctx, o):
-    """wall-clock / process values may reach only print"""
+    """wall-clock / process values may reach only print -- also through a helper of the same class that is handed such a value (the
+    helper is checked with that parameter tainted, two levels deep)"""
     P = ctx.P
-    for m, c, fn in inv.functions(P):
-        par = m.parents
 
+    def analyse(m, c, fn, seeds, depth):
+        """problems [(node, what)] of fn when the names in `seeds` hold wall-clock values (plus the sources read in fn itself)"""
         def is_source(x):
             if isinstance(x, ast.Call) and isinstance(x.func, ast.Attribute):
                 base = x.func.value
@@ -144,10 +145,9 @@ def wall_clock(ctx, o):
                     return True
             return False
         srcs = [x for x in ast.walk(fn) if is_source(x)]
-        if not srcs:
-            continue
-        where = f'{c.name if c else "<module>"}.{fn.name}'
-        tainted = set()
+        if not srcs and not seeds:
+            return None
+        tainted = set(seeds)
         changed = True
 
         def has_taint(e):
@@ -162,8 +162,10 @@ def wall_clock(ctx, o):
                             if isinstance(x, ast.Name) and x.id not in tainted:
                                 tainted.add(x.id)
                                 changed = True
+        problems = []
+        n_checked = 0
         for st in ast.walk(fn):
-            o.count()
+            n_checked += 1
             bad = None
             if isinstance(st, (ast.Assign, ast.AugAssign, ast.AnnAssign)) and st.value is not None and has_taint(st.value):
                 tg = st.targets if isinstance(st, ast.Assign) else [st.target]
@@ -178,11 +180,37 @@ def wall_clock(ctx, o):
                 args = list(st.args) + [k.value for k in st.keywords]
                 if any(has_taint(a) for a in args) and not (isinstance(st.func, ast.Name) and nm in SINKS_OK):
                     bad = f'passed to {ast.unparse(st.func)}()'
+                    # a helper of the same class: follow the value into it
+                    f = st.func
+                    if depth < 2 and c is not None and isinstance(f, ast.Attribute) and isinstance(f.value, ast.Name) \
+                            and (f.value.id in ('self', 'cls') or f.value.id in {k.name for k in c.mro}):
+                        hit = P.lookup(c, f.attr)
+                        if hit and hit[1] == 'method' and not st.keywords and not any(isinstance(a, ast.Starred) for a in st.args):
+                            hfn = hit[2]
+                            static = any(isinstance(d, ast.Name) and d.id == 'staticmethod' for d in hfn.decorator_list)
+                            ps = [a.arg for a in hfn.args.args][(0 if static else 1):]
+                            if len(ps) >= len(st.args) and not hfn.args.vararg and not hfn.args.kwarg:
+                                sub = analyse(hit[0].mod, hit[0], hfn, {p_ for p_, a_ in zip(ps, st.args) if has_taint(a_)}, depth + 1)
+                                if sub is not None and not sub[0]:
+                                    bad = None
+                                elif sub is not None:
+                                    bad = f'passed to {ast.unparse(st.func)}(), where it is {sub[0][0][1]}'
             if bad:
-                o.fail(P, where, st if not isinstance(st, (ast.If, ast.While)) else st.test, f'a wall-clock / process value is {bad}: simulation state or results would differ between identical runs',
-                       file=m.path, line=st.lineno)
+                problems.append((st if not isinstance(st, (ast.If, ast.While)) else st.test, bad))
+        return problems, len(srcs), sorted(tainted), n_checked
+
+    for m, c, fn in inv.functions(P):
+        r = analyse(m, c, fn, set(), 0)
+        if r is None or not r[1]:
+            continue
+        problems, nsrc, tainted, n_checked = r
+        where = f'{c.name if c else "<module>"}.{fn.name}'
+        o.count(n_checked)
+        for node, bad in problems:
+            o.fail(P, where, node, f'a wall-clock / process value is {bad}: simulation state or results would differ between identical runs',
+                   file=m.path, line=node.lineno)
         o.witness(where)
-        o.sample({'function': where, 'wall_clock_reads': len(srcs), 'tainted_locals': sorted(tainted), 'verdict': 'reach only print'})
+        o.sample({'function': where, 'wall_clock_reads': nsrc, 'tainted_locals': tainted, 'verdict': 'reach only print'})
 
 
 def set_iteration(ctx, o):
